@@ -9,7 +9,8 @@
      {"ev":"ce","g":g,"k":k,"call":c,"cls":class [,"runs":[..]]}   it ended (Read: the runs it returned)
      {"ev":"pw","w":id,"len":n,"k":order}                     the peer starts writing a payload
      {"ev":"pr","runs":[..]}                                  the peer's reader returned these runs
-     {"ev":"pclose"}                                          the peer closed first (it may not have read everything)
+     {"ev":"pclose"} {"ev":"phr"}                             the peer closed first / sent HelloRequest and will refuse
+                                                              the renegotiation (it may not have read everything)
      {"ev":"final","peerdone":b}                              transport down, deadlines expired, watchdog elapsed
      other events ("phs","pwe","preof","expire","down") carry no obligation.                         *)
 EXTENDS TLSConn, TLC, Json
@@ -92,7 +93,8 @@ TraceNext ==
             /\ PeerRunsOK(recv, e.runs)
             /\ recv' = recv \o e.runs
             /\ UNCHANGED <<writes, pred, okW, sent, claimed, floor, maxEnd, open, pclosed>>
-       [] e.ev = "pclose" ->
+       [] e.ev \in {"pclose", "phr"} ->      \* "phr": the peer asks for a renegotiation, which a zcrypto peer then
+                                            \* refuses with a fatal alert - it ends the connection like a close
             /\ pclosed' = TRUE
             /\ UNCHANGED <<writes, pred, okW, recv, sent, claimed, floor, maxEnd, open>>
        [] e.ev = "final" ->
